@@ -455,6 +455,12 @@ func (pt *ParsedTable) ToModelTable() *model.Table {
 
 	// Determine column count from grid or first row
 	colCount := len(pt.ColWidths)
+	if colCount > 0 && len(pt.Rows) > maxTableGridCells/colCount {
+		// The declared columns are out of proportion to the table (128 column
+		// elements repeated 1024 times each over 128 rows, an 850-byte file,
+		// asked for 16.7 million cells, 1.8 GiB): count the cells instead.
+		colCount = 0
+	}
 	if colCount == 0 {
 		// Calculate from cells
 		for _, row := range pt.Rows {
